@@ -4,13 +4,15 @@ const / delta / poly / vector_delta / matrix_delta are compared with the tensor 
 an independent contraction); the random constructors are driven by an *auditing generator* passed as `seed` (teneva._rand
 uses any non-int, non-None object as the generator), which records every request and dictates the values returned.
 """
+import sys
 import math
+import importlib
 import itertools
 import numpy as np
 from hypothesis import strategies as st
 
 import harness.core  # noqa: F401  (sets sys.path for the code under test)
-from harness.core import Sub
+from harness.core import Sub, OracleFailure
 from harness import gen, oracle
 from harness.oracle import EPS, dense
 
@@ -25,7 +27,17 @@ RULE = ("const/poly/random constructors: Hypothesis draws shapes (d 2..5(6), mod
         "negative spellings (delta: all shapes d 2..4 with mode sizes 1..6/5/4 plus long binary shapes, size <= 256, every "
         "signed position when size*2^d <= 2048, else non-negative + all-negative + rotating mixed mask; vector_delta q <= 5(12): "
         "every i in [-2^q, 2^q); matrix_delta q <= 5(7): every (i, j) in [-2^q, 2^q)^2). Non-trivial = non-empty zero list / a "
-        "negative position / non-uniform rank profile or rank >= 2 / vector shift or non-default power; distinct by SHA-1 of the case.")
+        "negative position / non-uniform rank profile or rank >= 2 / vector shift or non-default power; distinct by SHA-1 of the case. "
+        "Call order (every (sub-check, shard) is a fresh process, so histories are built inside one case): delta_order repeats the "
+        "exhaustive sweeps of vector_delta (q <= 7(10)), matrix_delta (q <= 4(6), boundary rows up to q = 5(7)) and delta (binary / "
+        "cubic / nested / rectangular shape ladders) inside ONE case with the levels visited descending, zig-zag, twice ascending, "
+        "descending-then-ascending and in two fixed permutations, vector and matrix sweeps interleaved both ways, positions ascending "
+        "and descending; history draws a sequence of 2..8(14) calls of const / delta / poly / vector_delta / matrix_delta / seeded "
+        "random constructors / rejected QTT requests that share parameters (one position on several quantisation levels and in "
+        "both signed spellings, one shape / index / value pool with prefix, suffix and bumped variants), checks every call with "
+        "the single-call oracle (= the result of the call in isolation), overwrites results already handed out (NaN / scaling), "
+        "and repeats every int-seeded random call at the end (bit-identical cores). Non-trivial history = two calls that share a "
+        "position on different levels or share a shape.")
 TOLERANCES = ("const/delta value: |got - v| <= (|ln|v|| + 4d + 4)*eps*|v| (the rounded exponent 1/d costs |ln|v||*eps/2, pow and the "
               "d-1 products the rest); zeros are exact zeros. poly: (32*(d+sum r+max n) + 8*(power+2))*eps*|scale|*sum|(i+shift)^power|. "
               "auditing generator: cores bit-for-bit equal to the Fortran-ordered cut of the returned flat vector. rand_stab: "
@@ -37,7 +49,9 @@ ASSUMPTIONS = ["d >= 2 for tensor shapes (library-wide precondition); q >= 1 for
                "rand: a < b; rand_norm: s > 0; rand_stab: 1e-15 <= noise <= 1e-2",
                "a draw of numpy's Generator.normal does not exceed 10 standard deviations (p < 1e-22 per draw) in the int-seed "
                "rand_stab cases; the forced-draw cases need no such assumption",
-               "libm pow is accurate to 2 ulp"]
+               "libm pow is accurate to 2 ulp",
+               "history: an int seed determines the random tensor (docstring 'seed (int): random seed'), so the same call repeated "
+               "later in the process returns bit-identical cores; the caller may overwrite a returned tensor in place"]
 
 VALS = [1.0, -1.0, 2.5, -0.375, 0.0, -0.0, 0, 7, -3, 1e-17, -1e-17, 1e-16, -1e-16, 1.0000001e-16, -1.0000001e-16, 1e-15,
         1e-300, -1e-300, 3e5, -3e5, 1e12, 1e200, -1e300]
@@ -95,15 +109,18 @@ def check_rank1(ctx, Y, n, what):
 # ------------------------------------------------------------------------------------------- const
 
 @st.composite
-def const_cases(draw, tier):
+def const_cases(draw, tier, shape=None, anchor=None, value=None):
+    """shape / anchor / value: fixed by the caller (history sub-check: calls that share parameters)."""
     big = tier != "quick"
-    n = draw(gen.shapes(d_min=2, d_max=6 if big else 5, n_min=1, n_max=5 if big else 4, size_max=4096 if big else 1024))
+    n = list(shape) if shape is not None else draw(
+        gen.shapes(d_min=2, d_max=6 if big else 5, n_min=1, n_max=5 if big else 4, size_max=4096 if big else 1024))
     d = len(n)
-    case = {"n": n, "n_arr": draw(st.booleans()), "v": draw(values()), "v_default": draw(st.integers(0, 9)) == 0,
+    case = {"n": n, "n_arr": draw(st.booleans()), "v": draw(values()) if value is None else value,
+            "v_default": draw(st.integers(0, 9)) == 0,
             "mode": draw(st.sampled_from(["plain", "zeros", "zeros", "protected", "protected", "protected", "protected"]))}
     if case["mode"] == "plain":
         return case
-    anchor = draw(gen.multi_index(n))
+    anchor = draw(gen.multi_index(n)) if anchor is None else list(anchor)
     free_modes = [k for k in range(d) if n[k] >= 2]
     nrows = draw(st.integers(0, 10 if big else 6))
     rows = []
@@ -127,6 +144,11 @@ def const_cases(draw, tier):
 
 
 def prop_const(case, ctx):
+    run_const(case, ctx)
+
+
+def run_const(case, ctx, mark=True):
+    """One const call checked against its description; returns the constructed tensor (None for a rejected request)."""
     n = case["n"]
     d = len(n)
     v = 1.0 if case["v_default"] else case["v"]
@@ -141,13 +163,14 @@ def prop_const(case, ctx):
             kw["i_non_zero"] = np.array(i_nz, dtype=int) if case["i_nz_arr"] else list(i_nz)
     args = (arg_n(case),) if case["v_default"] else (arg_n(case), case["v"])
     ctx.label(f"rows:{min(len(rows), 4)}")
-    ctx.nontrivial(len(rows) > 0)
+    if mark:
+        ctx.nontrivial(len(rows) > 0)
 
     conflict = i_nz is not None and any(list(r) == list(i_nz) for r in rows)
     if conflict:
         ctx.label("conflict")
         ctx.raises(ValueError, teneva.const, *args, **kw)
-        return
+        return None
     Y = ctx.lib(teneva.const, *args, **kw)
     check_rank1(ctx, Y, n, "const")
     F = dense(Y)
@@ -156,7 +179,7 @@ def prop_const(case, ctx):
     if not rows:
         ctx.check(bool(np.all(near_v)), "const: some entry differs from v beyond the rounding bound",
                   v=v, worst=float(F.ravel()[int(np.argmax(np.abs(F - v)))]), tol=tol)
-        return
+        return Y
     bad = ~((F == 0) | near_v)
     ctx.check(not np.any(bad), "const with zero list: an entry is neither 0 nor v",
               v=v, got=float(F[bad][0]) if np.any(bad) else None, tol=tol)
@@ -169,6 +192,7 @@ def prop_const(case, ctx):
         # rows that differ from the protected index in exactly one mode force the round-robin search to skip
         if any(sum(a != b for a, b in zip(r, i_nz)) == 1 for r in rows):
             ctx.label("single_mode_difference")
+    return Y
 
 
 # ------------------------------------------------------------------------------------------- delta (exhaustive)
@@ -217,25 +241,29 @@ def prop_delta(case, ctx):
     n = case["n"]
     d = len(n)
     v = 1.0 if case["v_default"] else case["v"]
-    tol = tol_v(v, d)
     ctx.label(*shape_labels(n), *v_labels(v), f"d:{d}")
     ctx.nontrivial(True)                          # every case executes the negative spellings of every position
     count = 0
     for t, (pos, idx) in enumerate(signed_positions(n)):
-        i_arg = np.array(idx, dtype=int) if t % 3 == 2 else idx
-        if case["v_default"]:
-            Y = ctx.lib(teneva.delta, arg_n(case), i_arg)
-        else:
-            Y = ctx.lib(teneva.delta, arg_n(case), i_arg, case["v"])
-        check_rank1(ctx, Y, n, "delta")
-        F = dense(Y)
-        got = float(F[tuple(pos)])
-        ctx.check(abs(got - v) <= tol and (v == 0 or got != 0), "delta: the value at the given position is not v",
-                  n=n, i=idx, got=got, v=v, tol=tol)
-        ctx.check(int(np.count_nonzero(F)) == (0 if v == 0 else 1), "delta: non-zero entries away from the given position",
-                  n=n, i=idx, nonzero=np.argwhere(F != 0)[:4])
+        one_delta(ctx, n, arg_n(case), pos, idx, t % 3 == 2, case["v"], case["v_default"])
         count += 1
     ctx.inner(count - 1)
+
+
+def one_delta(ctx, n, n_arg, pos, idx, i_arr, v_arg, v_default=False):
+    """One delta call (signed spelling idx of the position pos) checked against its description; returns the tensor."""
+    v = 1.0 if v_default else v_arg
+    tol = tol_v(v, len(n))
+    i_arg = np.array(idx, dtype=int) if i_arr else list(idx)
+    Y = ctx.lib(teneva.delta, n_arg, i_arg) if v_default else ctx.lib(teneva.delta, n_arg, i_arg, v_arg)
+    check_rank1(ctx, Y, n, "delta")
+    F = dense(Y)
+    got = float(F[tuple(pos)])
+    ctx.check(abs(got - v) <= tol and (v == 0 or got != 0), "delta: the value at the given position is not v",
+              n=n, i=idx, got=got, v=v, tol=tol)
+    ctx.check(int(np.count_nonzero(F)) == (0 if v == 0 else 1), "delta: non-zero entries away from the given position",
+              n=n, i=idx, nonzero=np.argwhere(F != 0)[:4])
+    return Y
 
 
 # ------------------------------------------------------------------------------------------- vector_delta / matrix_delta
@@ -259,26 +287,34 @@ def prop_vector_delta(case, ctx):
     q = case["q"]
     v = 1.0 if case["v_default"] else case["v"]
     m = 1 << q
-    tol = tol_v(v, q)
     ctx.label(f"q:{q}", *v_labels(v))
     ctx.nontrivial(True)                          # all negative positions are executed
     for i in range(-m, m):
-        Y = ctx.lib(teneva.vector_delta, q, i) if case["v_default"] else ctx.lib(teneva.vector_delta, q, i, case["v"])
-        check_rank1(ctx, Y, [2] * q, "vector_delta")
-        F = dense(Y)
-        p = i if i >= 0 else m + i
-        bits = tuple((p >> k) & 1 for k in range(q))            # little-endian: core k carries bit k
-        got = float(F[bits])
-        ctx.check(abs(got - v) <= tol and (v == 0 or got != 0), "vector_delta: the value at position i is not v",
-                  q=q, i=i, got=got, v=v, nonzero=np.argwhere(F != 0)[:4])
-        ctx.check(int(np.count_nonzero(F)) == (0 if v == 0 else 1), "vector_delta: non-zero entries away from position i",
-                  q=q, i=i, nonzero=np.argwhere(F != 0)[:4])
-        x = np.asarray(ctx.lib(teneva.full, Y)).reshape(-1, order='F')   # the library's own export, first index fastest
-        ctx.check(x.shape == (m,) and x[p] == F[bits] and int(np.count_nonzero(x)) == (0 if v == 0 else 1),
-                  "vector_delta: exported vector (teneva.full, Fortran order) is not the delta vector", q=q, i=i)
+        one_vector(ctx, q, i, case["v"], case["v_default"])
     for i in out_of_range(q):
         ctx.raises(ValueError, teneva.vector_delta, q, i, v)
     ctx.inner(2 * m - 1 + len(out_of_range(q)))
+
+
+def one_vector(ctx, q, i, v_arg, v_default=False):
+    """One vector_delta call checked against its description; returns the QTT-vector."""
+    v = 1.0 if v_default else v_arg
+    m = 1 << q
+    tol = tol_v(v, q)
+    Y = ctx.lib(teneva.vector_delta, q, i) if v_default else ctx.lib(teneva.vector_delta, q, i, v_arg)
+    check_rank1(ctx, Y, [2] * q, "vector_delta")
+    F = dense(Y)
+    p = i if i >= 0 else m + i
+    bits = tuple((p >> k) & 1 for k in range(q))            # little-endian: core k carries bit k
+    got = float(F[bits])
+    ctx.check(abs(got - v) <= tol and (v == 0 or got != 0), "vector_delta: the value at position i is not v",
+              q=q, i=i, got=got, v=v, nonzero=np.argwhere(F != 0)[:4])
+    ctx.check(int(np.count_nonzero(F)) == (0 if v == 0 else 1), "vector_delta: non-zero entries away from position i",
+              q=q, i=i, nonzero=np.argwhere(F != 0)[:4])
+    x = np.asarray(ctx.lib(teneva.full, Y)).reshape(-1, order='F')   # the library's own export, first index fastest
+    ctx.check(x.shape == (m,) and x[p] == F[bits] and int(np.count_nonzero(x)) == (0 if v == 0 else 1),
+              "vector_delta: exported vector (teneva.full, Fortran order) is not the delta vector", q=q, i=i)
+    return Y
 
 
 def matrix_cases(tier):
@@ -302,25 +338,10 @@ def prop_matrix_delta(case, ctx):
     q, i = case["q"], case["i"]
     v = 1.0 if case["v_default"] else case["v"]
     m = 1 << q
-    tol = tol_v(v, q)
-    pi = i if i >= 0 else m + i
     ctx.label(f"q:{q}", *v_labels(v), "i<0" if i < 0 else "i>=0")
     ctx.nontrivial(True)                          # all negative column positions are executed
-    nz = 0 if v == 0 else 1
     for j in range(-m, m):
-        Y = ctx.lib(teneva.matrix_delta, q, i, j) if case["v_default"] else ctx.lib(teneva.matrix_delta, q, i, j, case["v"])
-        ctx.check(isinstance(Y, list) and len(Y) == q and all(isinstance(G, np.ndarray) and G.shape == (1, 2, 2, 1)
-                                                               and G.dtype.kind == 'f' for G in Y),
-                  "matrix_delta: not a list of q float cores of shape (1, 2, 2, 1)", q=q, i=i, j=j)
-        pj = j if j >= 0 else m + j
-        for what, M in (("independent export", dense_matrix(Y)), ("teneva.full_matrix", ctx.lib(teneva.full_matrix, Y))):
-            M = np.asarray(M)
-            ctx.check(M.shape == (m, m), f"matrix_delta ({what}): wrong shape", shape=M.shape)
-            got = float(M[pi, pj])
-            ctx.check(abs(got - v) <= tol and (v == 0 or got != 0), f"matrix_delta ({what}): the value at (i, j) is not v",
-                      q=q, i=i, j=j, got=got, v=v, nonzero=np.argwhere(M != 0)[:4])
-            ctx.check(int(np.count_nonzero(M)) == nz, f"matrix_delta ({what}): non-zero entries away from (i, j)",
-                      q=q, i=i, j=j, nonzero=np.argwhere(M != 0)[:4])
+        one_matrix(ctx, q, i, j, case["v"], case["v_default"])
     bad = out_of_range(q)
     if i in (0, -1, m - 1, -m):
         for b in bad:
@@ -328,6 +349,32 @@ def prop_matrix_delta(case, ctx):
             ctx.raises(ValueError, teneva.matrix_delta, q, i, b, v)
         ctx.inner(2 * len(bad))
     ctx.inner(2 * m - 1)
+
+
+def one_matrix(ctx, q, i, j, v_arg, v_default=False, lib_export=True):
+    """One matrix_delta call checked against its description; returns the QTT-matrix."""
+    v = 1.0 if v_default else v_arg
+    m = 1 << q
+    tol = tol_v(v, q)
+    nz = 0 if v == 0 else 1
+    Y = ctx.lib(teneva.matrix_delta, q, i, j) if v_default else ctx.lib(teneva.matrix_delta, q, i, j, v_arg)
+    ctx.check(isinstance(Y, list) and len(Y) == q and all(isinstance(G, np.ndarray) and G.shape == (1, 2, 2, 1)
+                                                           and G.dtype.kind == 'f' for G in Y),
+              "matrix_delta: not a list of q float cores of shape (1, 2, 2, 1)", q=q, i=i, j=j)
+    pi = i if i >= 0 else m + i
+    pj = j if j >= 0 else m + j
+    exports = [("independent export", dense_matrix(Y))]
+    if lib_export:
+        exports.append(("teneva.full_matrix", ctx.lib(teneva.full_matrix, Y)))
+    for what, M in exports:
+        M = np.asarray(M)
+        ctx.check(M.shape == (m, m), f"matrix_delta ({what}): wrong shape", shape=M.shape)
+        got = float(M[pi, pj])
+        ctx.check(abs(got - v) <= tol and (v == 0 or got != 0), f"matrix_delta ({what}): the value at (i, j) is not v",
+                  q=q, i=i, j=j, got=got, v=v, nonzero=np.argwhere(M != 0)[:4])
+        ctx.check(int(np.count_nonzero(M)) == nz, f"matrix_delta ({what}): non-zero entries away from (i, j)",
+                  q=q, i=i, j=j, nonzero=np.argwhere(M != 0)[:4])
+    return Y
 
 
 def shard_of(cases_fn):
@@ -341,9 +388,10 @@ def shard_of(cases_fn):
 # ------------------------------------------------------------------------------------------- poly
 
 @st.composite
-def poly_cases(draw, tier):
+def poly_cases(draw, tier, shape=None):
     big = tier != "quick"
-    n = draw(gen.shapes(d_min=2, d_max=6 if big else 5, n_min=1, n_max=6 if big else 5, size_max=4096 if big else 1024))
+    n = list(shape) if shape is not None else draw(
+        gen.shapes(d_min=2, d_max=6 if big else 5, n_min=1, n_max=6 if big else 5, size_max=4096 if big else 1024))
     d = len(n)
     num = st.one_of(st.integers(-3, 3), st.integers(-3, 3).map(float), gen.reals(-3, 3))
     kind = draw(st.sampled_from(["default", "scalar", "list", "array", "int_scalar", "int_list", "int_array"]))
@@ -368,6 +416,11 @@ def poly_cases(draw, tier):
 
 
 def prop_poly(case, ctx):
+    run_poly(case, ctx)
+
+
+def run_poly(case, ctx, mark=True):
+    """One poly call checked against its description; returns the constructed tensor."""
     n = case["n"]
     d = len(n)
     kind = case["shift_kind"]
@@ -390,7 +443,8 @@ def prop_poly(case, ctx):
     if case["scale"] is not None:
         kw["scale"] = case["scale"]
     ctx.label(*shape_labels(n), "shift:" + kind, f"power:{power}", "scale<0" if scale < 0 else ("scale==0" if scale == 0 else "scale>0"))
-    ctx.nontrivial(kind in ("list", "array", "int_list", "int_array") or case["power"] not in (None, 2))
+    if mark:
+        ctx.nontrivial(kind in ("list", "array", "int_list", "int_array") or case["power"] not in (None, 2))
 
     Y = ctx.lib(teneva.poly, arg_n(case), **kw)
     why = oracle.wellformed(Y, n)
@@ -413,6 +467,7 @@ def prop_poly(case, ctx):
         ctx.check(False, "poly: dense tensor differs from scale * sum_k (i_k + shift_k)^power",
                   index=list(map(int, np.unravel_index(j, F.shape))), got=float(F.ravel()[j]), ref=float(ref.ravel()[j]),
                   tol=float(tol.ravel()[j]))
+    return Y
 
 
 # ------------------------------------------------------------------------------------------- random constructors
@@ -701,12 +756,291 @@ def prop_stab(case, ctx):
                   "rand_stab: positive forced noise does not raise the entries by the first-order amount d*3*noise",
                   lowest=float(F.min()), expected=1 + d * c)
 
+# ------------------------------------------------------------------------------------------- call order (exhaustive sweeps, one process)
+
+def fresh_library():
+    """Re-import the modules the constructors live in, so that a history starts from the state of a fresh process (module
+    level caches emptied) and the verdict of a case is a function of the case alone: replayable, shrinkable, not flaky."""
+    for name in ("teneva.utils", "teneva.grid", "teneva.tensors", "teneva.vectors", "teneva.matrices"):
+        if name in sys.modules:
+            importlib.reload(sys.modules[name])
+    importlib.reload(teneva)
+
+
+def _orders(lo, hi):
+    """Named visiting orders of the levels lo..hi other than the plain ascending sweep."""
+    asc = list(range(lo, hi + 1))
+    desc = asc[::-1]
+    zig = []
+    a, b = 0, len(asc) - 1
+    while a <= b:
+        zig.append(asc[b])
+        if a < b:
+            zig.append(asc[a])
+        a, b = a + 1, b - 1
+    prime = next(p for p in range(len(asc) + 1, 4 * len(asc) + 8) if all(p % f for f in range(2, p)))
+    perm = lambda mult: [asc[k - 1] for k in sorted(range(1, len(asc) + 1), key=lambda k: (mult * k) % prime)]
+    return [("desc", desc), ("zigzag_hi", zig), ("zigzag_lo", [zig[k ^ 1] if (k ^ 1) < len(zig) else zig[k] for k in range(len(zig))]),
+            ("asc_twice", asc + asc), ("desc_asc", desc + asc[1:]), ("perm3", perm(3)), ("perm5", perm(5))]
+
+
+ORDER_SHAPES = {"binary": lambda q: [2] * (q + 1), "cube": lambda q: [q] * 3, "prefix": lambda q: [3, 2, 4, 1, 3, 2, 2, 3][:q + 1],
+                "pair": lambda q: [q, 7 - q] if q <= 6 else [q, 1]}
+
+
+def order_cases(tier):
+    big = tier != "quick"
+    qv, qm = (10, 6) if big else (7, 4)
+    t = 0
+    for kind, lo, hi in (("vector", 1, qv), ("matrix", 1, qm), ("matrix_rows", 1, qm + 1), ("vector_matrix", 1, qm), ("matrix_vector", 1, qm),
+                         ("vector_pass_matrix_pass", 1, qm), ("delta:binary", 1, 8 if big else 7), ("delta:cube", 1, 6 if big else 5),
+                         ("delta:prefix", 1, 7), ("delta:pair", 1, 6)):
+        for name, steps in _orders(lo, hi):
+            t += 1
+            yield {"kind": kind, "order": name, "steps": steps, "pos_desc": t % 2 == 0, "v0": t % len(DELTA_VALS)}
+
+
+BOUNDARY_ROWS = lambda q: sorted({0, 1, (1 << q) - 1, (1 << q) - 2, 1 << (q - 1), (1 << (q - 1)) - 1, -1, -2, -(1 << q), 1 - (1 << q),
+                                  -(1 << (q - 1)), -(1 << (q - 1)) - 1} & set(range(-(1 << q), 1 << q)))
+
+
+def prop_order(case, ctx):
+    """The exhaustive position sweeps of the delta constructors, visited in a non-ascending order of the quantisation levels
+    (shapes) inside ONE process: the tensor described by a call does not depend on the calls made before it."""
+    kind, steps = case["kind"], case["steps"]
+    fresh_library()
+    ctx.label("kind:" + kind, "order:" + case["order"], "positions:" + ("desc" if case["pos_desc"] else "asc"))
+    ctx.nontrivial(True)                          # every case revisits smaller levels after larger ones
+    count = 0
+
+    def positions(q):
+        r = range(-(1 << q), 1 << q)
+        return reversed(r) if case["pos_desc"] else r
+
+    def value(t):
+        v = DELTA_VALS[(case["v0"] + t) % len(DELTA_VALS)]
+        return v, (t % 5 == 4)
+
+    def vector_sweep(q, t):
+        v, dflt = value(t)
+        c = 0
+        for i in positions(q):
+            one_vector(ctx, q, i, v, dflt)
+            c += 1
+        return c
+
+    def matrix_sweep(q, t, rows=None):
+        v, dflt = value(t + 1)
+        c = 0
+        for i in (positions(q) if rows is None else rows):
+            for j in positions(q):
+                one_matrix(ctx, q, i, j, v, dflt, lib_export=(c % 4 == 0))
+                c += 1
+        return c
+
+    if kind == "vector_pass_matrix_pass":
+        for t, q in enumerate(steps):
+            count += vector_sweep(q, t)
+        for t, q in enumerate(reversed(steps)):
+            count += matrix_sweep(q, t)
+    else:
+        for t, q in enumerate(steps):
+            if kind == "vector":
+                count += vector_sweep(q, t)
+            elif kind == "matrix":
+                count += matrix_sweep(q, t)
+            elif kind == "matrix_rows":
+                count += matrix_sweep(q, t, BOUNDARY_ROWS(q))
+            elif kind == "vector_matrix":
+                count += vector_sweep(q, t) + matrix_sweep(q, t)
+            elif kind == "matrix_vector":
+                count += matrix_sweep(q, t) + vector_sweep(q, t)
+            else:
+                n = ORDER_SHAPES[kind.split(":")[1]](q)
+                v, dflt = value(t)
+                for c, (pos, idx) in enumerate(signed_positions(n)):
+                    one_delta(ctx, n, np.array(n, dtype=int) if t % 2 else list(n), pos, idx, c % 3 == 2, v, dflt)
+                    count += 1
+    ctx.inner(count - 1)
+
+
+# ------------------------------------------------------------------------------------------- history of constructor calls
+
+HIST_KINDS = {"all": ["const", "delta", "poly", "vector_delta", "matrix_delta", "rand", "qtt_reject"],
+              "qtt": ["vector_delta", "vector_delta", "matrix_delta", "matrix_delta", "delta", "qtt_reject"],
+              "tensor": ["const", "const", "delta", "delta", "poly", "rand", "vector_delta"]}
+
+
+@st.composite
+def history_cases(draw, tier):
+    """A sequence of constructor calls that share parameters (the same position on several quantisation levels, the same
+    shape / index / value with other arguments), so that state carried from one call to the next has something to hit."""
+    big = tier != "quick"
+    base = draw(gen.shapes(d_min=2, d_max=5, n_min=1, n_max=4, size_max=256))
+    anchor = draw(gen.multi_index(base))
+    qmax = draw(st.integers(2, 8 if big else 6))
+    top = (1 << qmax) - 1
+    pool_p = [draw(st.integers(0, top)) for _ in range(2)]
+    pool_v = [draw(values()) for _ in range(2)]
+    focus = draw(st.sampled_from(["all", "qtt", "tensor"]))
+    calls = []
+
+    def position():
+        return draw(st.one_of(st.sampled_from(pool_p), st.sampled_from(pool_p), st.integers(0, top)))
+
+    def level(p):
+        return min(qmax, max(1, int(p).bit_length()) + draw(st.sampled_from([0, 0, 1, 2, 3])))
+
+    def signed(p, q):
+        return p - (1 << q) if draw(st.booleans()) else p
+
+    def value():
+        return draw(st.one_of(st.sampled_from(pool_v), values()))
+
+    def shape():
+        how = draw(st.sampled_from(["same", "same", "prefix", "suffix", "bump", "fresh"]))
+        n, a = list(base), list(anchor)
+        if how == "prefix" and len(n) > 2:
+            k = draw(st.integers(2, len(n) - 1))
+            n, a = n[:k], a[:k]
+        elif how == "suffix" and len(n) > 2:
+            k = draw(st.integers(2, len(n) - 1))
+            n, a = n[-k:], a[-k:]
+        elif how == "bump":
+            k = draw(st.integers(0, len(n) - 1))
+            n[k] = draw(st.integers(1, 5))
+            a[k] = a[k] % n[k]
+        elif how == "fresh":
+            n = draw(gen.shapes(d_min=2, d_max=5, n_min=1, n_max=4, size_max=256))
+            a = [x % k for x, k in zip((anchor * 3)[:len(n)], n)]
+        if draw(st.integers(0, 2)) == 0:
+            a = draw(gen.multi_index(n))
+        return n, a
+
+    for _ in range(draw(st.integers(2, 14 if big else 8))):
+        kind = draw(st.sampled_from(HIST_KINDS[focus]))
+        call = {"kind": kind}
+        if kind == "vector_delta":
+            p = position()
+            q = level(p)
+            call.update(q=q, i=signed(p, q), v=value(), v_default=draw(st.integers(0, 7)) == 0)
+        elif kind == "matrix_delta":
+            p = position()
+            q = level(p)
+            p2 = position() & ((1 << q) - 1)
+            if draw(st.booleans()):
+                p, p2 = p2, p
+            call.update(q=q, i=signed(p, q), j=signed(p2, q), v=value(), v_default=draw(st.integers(0, 7)) == 0)
+        elif kind == "qtt_reject":
+            q = draw(st.integers(1, qmax))
+            call.update(q=q, bad=draw(st.sampled_from(out_of_range(q))), ok=signed(position() & ((1 << q) - 1), q),
+                        fn=draw(st.sampled_from(["vector", "matrix_i", "matrix_j"])), v=value())
+        elif kind == "delta":
+            n, a = shape()
+            idx = [x - k if draw(st.booleans()) else x for x, k in zip(a, n)]
+            call.update(n=n, pos=a, idx=idx, n_arr=draw(st.booleans()), i_arr=draw(st.booleans()), v=value(),
+                        v_default=draw(st.integers(0, 7)) == 0)
+        elif kind == "const":
+            n, a = shape()
+            call["case"] = draw(const_cases(tier, shape=n, anchor=a, value=value()))
+        elif kind == "poly":
+            n, a = shape()
+            call["case"] = draw(poly_cases(tier, shape=n))
+        else:
+            n, a = shape()
+            fn = draw(st.sampled_from(["rand", "rand_norm", "rand_stab"]))
+            r = draw(st.one_of(st.integers(1, 3), st.just(None)))
+            if r is None:
+                r = [1] + [draw(st.integers(1, 3)) for _ in range(len(n) - 1)] + [1]
+            call.update(fn=fn, n=n, n_arr=draw(st.booleans()), r=r, seed=draw(st.one_of(st.sampled_from([0, 1, 42]), gen.seeds)))
+            if fn == "rand":
+                a_ = draw(st.one_of(st.integers(-3, 3), gen.reals(-1e3, 1e3)))
+                call["params"] = [a_, a_ + draw(st.one_of(st.integers(1, 4), st.floats(2.0 ** -10, 100.0)))]
+            elif fn == "rand_norm":
+                call["params"] = [draw(st.one_of(st.integers(-3, 3), gen.reals(-1e3, 1e3))),
+                                  draw(st.one_of(st.integers(1, 4), st.floats(2.0 ** -20, 100.0)))]
+            else:
+                call["params"] = [10.0 ** -draw(st.integers(2, 15))]
+        calls.append(call)
+    return {"calls": calls, "scribble": draw(st.sampled_from(["nan", "nan", "scale", "none"]))}
+
+
+def _rand_call(call, ctx):
+    lib = {"rand": teneva.rand, "rand_norm": teneva.rand_norm, "rand_stab": teneva.rand_stab}[call["fn"]]
+    n_arg = np.array(call["n"], dtype=int) if call["n_arr"] else list(call["n"])
+    r_arg = call["r"] if isinstance(call["r"], int) else list(call["r"])
+    Y = ctx.lib(lib, n_arg, r_arg, *call["params"], call["seed"])
+    check_profile(ctx, Y, call["n"], expand_r(call["r"], len(call["n"])), call["fn"])
+    return Y
+
+
+def _related(a, b):
+    """Two calls of a history that share a parameter while differing in another one."""
+    qtt = ("vector_delta", "matrix_delta")
+    if a["kind"] in qtt and b["kind"] in qtt:
+        pa = {x % (1 << a["q"]) for x in (a["i"], a.get("j", a["i"]))}
+        pb = {x % (1 << b["q"]) for x in (b["i"], b.get("j", b["i"]))}
+        return a["q"] != b["q"] and bool(pa & pb)
+    shape = lambda c: c.get("n") or c.get("case", {}).get("n")
+    return shape(a) is not None and shape(a) == shape(b)
+
+
+def prop_history(case, ctx):
+    """Every call of the sequence builds the tensor it describes (the same oracles as in the single-call sub-checks, i.e. the
+    result of the call in isolation), whatever was constructed before; results handed out earlier may be overwritten by the
+    caller; a random constructor called again with the same int seed returns the same cores."""
+    calls = case["calls"]
+    kinds = [c["kind"] for c in calls]
+    fresh_library()
+    ctx.label(f"len:{min(len(calls), 8)}", "scribble:" + case["scribble"], *["has:" + k for k in set(kinds)])
+    nt = any(_related(calls[a], calls[b]) for b in range(len(calls)) for a in range(b))
+    first_rand = {}
+    for t, call in enumerate(calls):
+        kind = call["kind"]
+        try:
+            if kind == "vector_delta":
+                Y = one_vector(ctx, call["q"], call["i"], call["v"], call["v_default"])
+            elif kind == "matrix_delta":
+                Y = one_matrix(ctx, call["q"], call["i"], call["j"], call["v"], call["v_default"])
+            elif kind == "qtt_reject":
+                args = {"vector": (call["bad"],), "matrix_i": (call["bad"], call["ok"]), "matrix_j": (call["ok"], call["bad"])}[call["fn"]]
+                ctx.raises(ValueError, teneva.vector_delta if call["fn"] == "vector" else teneva.matrix_delta, call["q"], *args, call["v"])
+                Y = None
+            elif kind == "delta":
+                Y = one_delta(ctx, call["n"], np.array(call["n"], dtype=int) if call["n_arr"] else list(call["n"]),
+                              call["pos"], call["idx"], call["i_arr"], call["v"], call["v_default"])
+            elif kind == "const":
+                Y = run_const(call["case"], ctx, mark=False)
+            elif kind == "poly":
+                Y = run_poly(call["case"], ctx, mark=False)
+            else:
+                Y = _rand_call(call, ctx)
+                first_rand.setdefault(t, [G.copy() for G in Y])
+        except OracleFailure as e:
+            raise OracleFailure(f"call {t} of the history ({kind}, after {kinds[:t]}): {e.msg}", {**e.details, "call": call})
+        if Y is not None and case["scribble"] != "none":
+            for G in Y:                           # the caller owns the result: overwrite it in place
+                if case["scribble"] == "nan":
+                    G[...] = np.nan
+                else:
+                    G *= -3.0
+    for t, ref in first_rand.items():             # after the whole history: the same int seed gives the same tensor again
+        call = calls[t]
+        Y = _rand_call(call, ctx)
+        ctx.check(len(Y) == len(ref) and all(G.shape == H.shape and bool(np.all(G == H)) for G, H in zip(Y, ref)),
+                  f"{call['fn']}: the same call with the same int seed returned different cores later in the process",
+                  call=call, step=t, history=kinds)
+    ctx.nontrivial(nt)
+    ctx.inner(len(calls) - 1)
+
 
 SUBCHECKS = [
     Sub("const", prop_const, strategy=const_cases, quick=300, thorough=3000),
     Sub("delta", prop_delta, enumerate=shard_of(delta_cases), exhaustive=True),
     Sub("vector_delta", prop_vector_delta, enumerate=shard_of(vector_cases), exhaustive=True),
     Sub("matrix_delta", prop_matrix_delta, enumerate=shard_of(matrix_cases), exhaustive=True),
+    Sub("delta_order", prop_order, enumerate=shard_of(order_cases), exhaustive=True),
+    Sub("history", prop_history, strategy=history_cases, quick=120, thorough=2000),
     Sub("poly", prop_poly, strategy=poly_cases, quick=200, thorough=3000),
     Sub("rand_audit", prop_audit, strategy=audit_cases, quick=200, thorough=3000),
     Sub("rand_seeded", prop_seeded, strategy=seeded_cases, quick=120, thorough=1500),
